@@ -15,9 +15,11 @@ EXPLANATION = ("Clamp discipline decided on def-use-expanded expressions: (R1) t
                "continuous routine the pilot's SoC rate is capped by the maximum SoC rate before any use; (R5) constructor "
                "and reset store a caller-supplied charge only on the non-rejecting edge of `charge > capacity`, whose other "
                "edge raises; (R8) the region tests and the pieces of the continuous closed form use the same (pilot-adjusted) breakpoint - with "
-               "the nominal one in either, the piece is evaluated outside its region and the rate leaves [0, pilot]; (R6) the EVSE stores exactly the validated pilot it forwards to the EV.")
-NOT_DECIDED = ("0 <= rate <= pilot for the continuous closed form (follows from properties of exp, not from shape); "
-               "monotonicity of the stored charge under the closed form")
+               "the nominal one in either, the piece is evaluated outside its region and the rate leaves [0, pilot]; (R9) every piece of the "
+               "continuous closed form satisfies, as an identity decided by computer algebra on the source expressions, the differential law "
+               "ds/dtau = D resp. D(1-s)/(1-P) with its entry condition, and is selected by the law's region predicates; (R6) the EVSE stores exactly the validated pilot it forwards to the EV.")
+NOT_DECIDED = ("the last step from `every piece solves ds/dtau = r(s), 0 <= r <= D` (R9, decided) to `0 <= gain <= D` is the comparison "
+               "theorem for ODEs, taken from analysis and not mechanised; floating-point rounding of exp near SoC = 1")
 
 FILL = frozenset({"self._capacity", "self._current_charge", "period"})
 MAXP = frozenset({"self._max_power"})
@@ -134,10 +136,8 @@ def rule_taint(ck, rid="C03.R3"):
     ck.floor(rid, n_sinks, 9, "state/return sinks of the charge routines")
 
 
-def rule_pilot_cap(ck, rid="C03.R4"):
-    repo = ck.repo
-    f = repo.fn("Linear2StageBattery._charge")
-    fl = flow_of(f)
+def rate_vars(fl, f):
+    """({pilot SoC-rate variable: [definition nodes]}, maximum SoC-rate variable) of the continuous routine"""
     cfg = fl.cfg
     # the pilot-derived SoC rate and the maximum SoC rate are identified by influence, not by name
     cand = {}
@@ -156,6 +156,15 @@ def rule_pilot_cap(ck, rid="C03.R4"):
                 maxn = nm
     if len(cand) != 1 or maxn is None:
         raise AnalysisError(f"_charge: pilot SoC rate / maximum SoC rate not identified (candidates {sorted(cand)}, max {maxn})")
+    return cand, maxn
+
+
+def rule_pilot_cap(ck, rid="C03.R4"):
+    repo = ck.repo
+    f = repo.fn("Linear2StageBattery._charge")
+    fl = flow_of(f)
+    cfg = fl.cfg
+    cand, maxn = rate_vars(fl, f)
     var, d_raw = next(iter(cand.items()))
     all_defs = [n for n in cfg.nodes if var in fl._defs.get(n, {})]
 
@@ -271,8 +280,12 @@ def run(ck):
     rule_init_guards(ck)
     # a closed form evaluated with the wrong breakpoint yields a negative rate (the exponent's sign flips): the bounds need the
     # region tests and the pieces to agree on the pilot-adjusted breakpoint
-    from .c14 import rule_breakpoint
+    from .c14 import rule_breakpoint, rule_law
     rule_breakpoint(ck, rid="C03.R8")
+    # 0 <= rate <= pilot for the continuous model: each piece of the closed form is the solution of ds/dtau = r(s) with
+    # r(s) = D below the breakpoint and D (1 - s)/(1 - P) in [0, D] above it (identities decided by computer algebra); a solution of that
+    # law gains between 0 and D per period, so the returned rate lies between 0 and the (capped) pilot
+    rule_law(ck, rid="C03.R9")
     from .c13 import rule_validate_before_mutate
     rule_validate_before_mutate(ck, rid="C03.R6")
     # the clamps only bound the rate if the conversions between A, kW, kWh and SoC-per-period are exact (units + truncation)
